@@ -189,7 +189,7 @@ fn directed_mode(d: &Directed, mode: CloseMode) -> Check {
     let bytes = match mode {
         CloseMode::FlushAndCopy => {
             pkg.flush().map_err(|e| err("flush", e))?;
-            let b = buf.bytes();
+            let b = buf.durable_bytes();
             drop(pkg);
             b
         }
